@@ -310,6 +310,12 @@ class Eval:
             if a.t == REAL and not self.spec and getattr(self.ex, "uses_inf", False):
                 # A2: arithmetic on finite floats stays finite (no overflow to +-inf)
                 fin = lambda z: z3.And(z != INF, z != -INF)
+                if getattr(self.ex.spec, "ext_inf", False) and isinstance(op, ast.Add):
+                    # extended reals for +: float('inf') absorbs (inf + x == inf for every x > -inf, as IEEE does); -inf is never
+                    # an operand (obligation), so inf - inf / NaN cannot arise
+                    self.ob("inf-arith", z3.And(a.z != -INF, b.z != -INF), n)
+                    self.st.pc.append(z3.Implies(z3.And(fin(a.z), fin(b.z)), z3.And(r < INF, r > -INF)))
+                    return V(a.t, z3.If(z3.Or(a.z == INF, b.z == INF), INF, r))
                 if getattr(self.ex.spec, "strict_inf", False) or os.environ.get("PYVC_STRICT_INF"):
                     self.ob("inf-arith", z3.And(fin(a.z), fin(b.z)), n)
                 self.st.pc.append(z3.Implies(z3.And(fin(a.z), fin(b.z)), z3.And(r < INF, r > -INF)))
